@@ -46,6 +46,8 @@ func main() {
 		os.Exit(cmdSetup())
 	case "passthrough":
 		os.Exit(cmdPassthrough())
+	case "selftest":
+		os.Exit(cmdSelftest(os.Args[2:]))
 	default:
 		usage()
 	}
@@ -83,9 +85,68 @@ func tmpDir() (string, error) {
 	return os.MkdirTemp(base, "vcheck-")
 }
 
+// patchFile, when set (--patch), is a diff applied to a scratch copy of the
+// repository's Go sources; the copy is substituted for /repo through go build
+// -overlay, so /repo itself is never touched (used by selftest).
+var patchFile string
+
+// mutatedRepo returns the directory holding the patched copy ("" if no patch).
+func mutatedRepo(b *built) (string, error) {
+	if patchFile == "" {
+		return "", nil
+	}
+	dst := filepath.Join(b.dir, "repo-mut")
+	if _, err := os.Stat(dst); err == nil {
+		return dst, nil
+	}
+	cp := exec.Command("bash", "-c", fmt.Sprintf("mkdir -p %q && cd %q && tar --exclude=.git -cf - . | tar -xf - -C %q && cd %q && patch -s -p1 < %q", dst, repoRoot, dst, dst, patchFile))
+	if out, err := cp.CombinedOutput(); err != nil {
+		return "", fmt.Errorf("applying %s to a copy of %s: %v\n%s", patchFile, repoRoot, err, out)
+	}
+	return dst, nil
+}
+
+// plainOverlay maps every Go file of the patched copy that differs from /repo
+// onto its /repo path.
+func plainOverlay(b *built, mut string) (string, error) {
+	repl := map[string]string{}
+	err := filepath.Walk(mut, func(p string, fi os.FileInfo, err error) error {
+		if err != nil || fi.IsDir() || !(strings.HasSuffix(p, ".go") || strings.HasSuffix(p, ".s")) {
+			return err
+		}
+		rel, _ := filepath.Rel(mut, p)
+		orig := filepath.Join(repoRoot, rel)
+		a, _ := os.ReadFile(p)
+		o, err2 := os.ReadFile(orig)
+		if err2 != nil || !bytes.Equal(a, o) {
+			repl[orig] = p
+		}
+		return nil
+	})
+	if err != nil {
+		return "", err
+	}
+	data, _ := json.Marshal(map[string]interface{}{"Replace": repl})
+	path := filepath.Join(b.dir, "overlay-plain.json")
+	return path, os.WriteFile(path, data, 0o644)
+}
+
 func buildSeq(b *built) error {
 	b.seqw = filepath.Join(b.dir, "seqw")
-	cmd := exec.Command("go", "build", "-tags", "verif", "-o", b.seqw, "./cmd/seqw")
+	args := []string{"build", "-tags", "verif"}
+	mut, err := mutatedRepo(b)
+	if err != nil {
+		return err
+	}
+	if mut != "" {
+		ov, err := plainOverlay(b, mut)
+		if err != nil {
+			return err
+		}
+		args = append(args, "-overlay", ov)
+	}
+	args = append(args, "-o", b.seqw, "./cmd/seqw")
+	cmd := exec.Command("go", args...)
 	cmd.Dir = root
 	cmd.Env = goEnv()
 	out, err := cmd.CombinedOutput()
@@ -213,6 +274,7 @@ func cmdRun(args []string) int {
 	tier := fs.String("tier", "", "quick|thorough")
 	jobs := fs.Int("j", 0, "parallel workers")
 	only := fs.String("only", "", "substring filter on unit ids (debugging; evidence is still written)")
+	patch := fs.String("patch", "", "apply this diff to a scratch copy of the repository (via -overlay) instead of testing /repo itself; no evidence is written")
 	keep := fs.Bool("keep", false, "keep temp dir")
 	fs.Parse(args[1:])
 	if *tier == "" {
@@ -220,6 +282,13 @@ func cmdRun(args []string) int {
 	}
 	if *tier != "thorough" {
 		*tier = "quick"
+	}
+	if *patch != "" {
+		abs, err := filepath.Abs(*patch)
+		if err != nil {
+			return engineError("%v", err)
+		}
+		patchFile = abs
 	}
 	seed := int64(1)
 	if s := os.Getenv("VERIF_SEED"); s != "" {
@@ -497,7 +566,7 @@ func cmdRun(args []string) int {
 		"wall_s":      round2(wall),
 		"violations":  nViol,
 	}
-	if *only == "" || true {
+	if patchFile == "" {
 		os.MkdirAll(filepath.Join(root, "evidence"), 0o755)
 		data, _ := json.MarshalIndent(ev, "", " ")
 		if err := os.WriteFile(filepath.Join(root, "evidence", prop+".json"), data, 0o644); err != nil {
